@@ -1629,7 +1629,6 @@ func ruleOffsetWithRunId(w *core.World, r *core.Report, c *senderCtx) {
 	r.Check(bad == "" && n > 0, "sendCmdsBatch/offset-with-run-id", badPos, "%s", bad)
 }
 
-
 // isLoopHelper: a closure of the sender (other than the batch sender and its
 // retry wrapper) that is called from the main loop only: statements of the loop
 // that were given a name.
